@@ -75,7 +75,7 @@ struct FaultSweep : GridBase {
     const bool single = op <= F_INSERT_M;
     const bool uses_pos = op == F_EMPLACE || (op >= F_INSERT_C && op <= F_INSERT_IL) || op == F_INSERT_INPUT;
     for (uintmax_t size : sizes) {
-      for (int spare = 0; spare < 4 && !g_cut; ++spare) {
+      for (int spare = 0; spare < 5 && !g_cut; ++spare) {
         if (I::kFixed && spare != SP_NATURAL) continue;
         if (is_ctor && op != F_COPY_CTOR && (size != 0 || spare != 0)) continue;
         std::vector<uintmax_t> cs;
@@ -115,6 +115,13 @@ struct FaultSweep : GridBase {
     if (spare == SP_GROW) want_cap = size;
     else if (spare == SP_EXACT) want_cap = size + added;
     else if (spare == SP_MORE) want_cap = size + added + 3;
+    else if (spare == SP_PARTIAL) {
+      // a heap buffer with some room left, but not enough for this call: it has to grow from a buffer that is not full (and holds no live
+      // element at all when size == 0). Needs a call adding at least two elements.
+      uintmax_t need = (op == F_ASSIGN_N || op == F_ASSIGN_RANGE || op == F_ASSIGN_IL) ? (c > size ? c - size : 0) : added;
+      if (need < 2) return -1;
+      want_cap = size + need - 1;
+    }
     if (want_cap == 0 && spare != SP_NATURAL) return -1;
     bool need_src = op == F_COPY_ASSIGN || op == F_COPY_CTOR;
     if (!(is_ctor && !need_src)) {
